@@ -481,3 +481,60 @@ Definition obs_get_spans (l : dspans) : list N :=
   | Some s => 1 :: obs_spans s
   | None => [0]
   end.
+
+(* ========================================================================== *)
+(* Sparse observation: the full state (and get_spans()) is looked at only after *)
+(* every k-th step and at the end; in between only the results that the         *)
+(* operations themselves return are recorded.  (A driver that queries after     *)
+(* every mutation cannot notice state that survives between queries.)           *)
+(* ========================================================================== *)
+Definition sp_step_result (l : spans) (op : sop) : spans * list N :=
+  match op with
+  | OpContains s n => (l, [7; b2n (spans_contains s n l)])
+  | _ => match sp_step l op with
+         | Some l' => (l', [1])
+         | None => (l, [0])
+         end
+  end.
+
+Fixpoint sp_look_from (k c : nat) (l : spans) (h : N) (ops : list sop) : spans * N :=
+  match ops with
+  | [] => (l, h)
+  | op :: r =>
+      let '(l', vs) := sp_step_result l op in
+      let h1 := mix_list h vs in
+      match c with
+      | O => sp_look_from k (k - 1) l' (mix_list h1 (obs_spans l')) r
+      | S c' => sp_look_from k c' l' h1 r
+      end
+  end.
+
+Definition sp_trace_look (k : nat) (ops : list sop) : N :=
+  let '(l, h) := sp_look_from k (k - 1) [] 0 ops in mix_list h (9 :: obs_spans l).
+
+Definition ds_step_result (l : dspans) (op : dop) : dspans * list N :=
+  match op with
+  | DGet s n => (l, 7 :: obs_bytes (ds_get s n l))
+  | DPop s n => let '(d, l') := ds_pop s n l in (l', 8 :: obs_bytes d)
+  | _ => match ds_step l op with
+         | Some l' => (l', [1])
+         | None => (l, [0])
+         end
+  end.
+
+Definition obs_ds_full (l : dspans) : list N := obs_dspans l ++ obs_get_spans l.
+
+Fixpoint ds_look_from (k c : nat) (l : dspans) (h : N) (ops : list dop) : dspans * N :=
+  match ops with
+  | [] => (l, h)
+  | op :: r =>
+      let '(l', vs) := ds_step_result l op in
+      let h1 := mix_list h vs in
+      match c with
+      | O => ds_look_from k (k - 1) l' (mix_list h1 (obs_ds_full l')) r
+      | S c' => ds_look_from k c' l' h1 r
+      end
+  end.
+
+Definition ds_trace_look (k : nat) (ops : list dop) : N :=
+  let '(l, h) := ds_look_from k (k - 1) [] 0 ops in mix_list h (9 :: obs_ds_full l).
